@@ -86,6 +86,7 @@ type stepCtx struct {
 	stateBefore    string
 	loggedOnBefore bool
 	faithful       bool // the frame came from the faithful peer's link (not an adversarial injection)
+	wellFormed     bool // header and PossDup/OrigSendingTime consistent (always true for the faithful peer)
 }
 
 func newSim(t vk.TB, c *stats.Collector, cfg simCfg) *sim {
@@ -150,7 +151,7 @@ func (s *sim) observe(st rig.StepResult, ctx stepCtx) {
 }
 
 func (s *sim) ctxFor(kind string, raw []byte, faithful bool) stepCtx {
-	ctx := stepCtx{kind: kind, raw: raw, tBefore: s.r.T(), stateBefore: s.r.V.StateName(), loggedOnBefore: s.r.V.IsLoggedOn(), faithful: faithful}
+	ctx := stepCtx{kind: kind, raw: raw, tBefore: s.r.T(), stateBefore: s.r.V.StateName(), loggedOnBefore: s.r.V.IsLoggedOn(), faithful: faithful, wellFormed: faithful}
 	if raw != nil {
 		ctx.fields, _ = fixwire.Scan(raw, map[int]int{212: 213})
 		ctx.msgType = fixwire.GetS(ctx.fields, 35)
